@@ -191,6 +191,8 @@ pub struct Node {
     pub want_cap: BTreeMap<u64, usize>,
     /// Ready number whose persistence raft has not been told about yet (deferred notification)
     pub pending_notify: Option<u64>,
+    /// ghost (leader side): snapshots sent to a peer and neither reported nor acknowledged yet
+    pub snap_outstanding: BTreeMap<u64, u64>,
 }
 
 impl Node {
@@ -412,6 +414,7 @@ impl World {
                     transferee_seen: None,
                     want_cap: BTreeMap::new(),
                     pending_notify: None,
+                    snap_outstanding: BTreeMap::new(),
                 },
             );
         }
@@ -615,6 +618,14 @@ impl World {
                 if msg.contains("HARNESS") {
                     return Err(self.violation("HARNESS", "HARNESS.self_check", n, detail, sig));
                 }
+                if self.focus == Some("C15") {
+                    if let CallKind::Step(m) = &kind {
+                        if m.get_msg_type() == MessageType::MsgSnapshot {
+                            let d = format!("node {n} panicked while accepting a snapshot at {}: {msg}", m.get_snapshot().get_metadata().index);
+                            return Err(self.violation("C15", "C15.install_effect", n, d, format!("install_panicked:{sig}")));
+                        }
+                    }
+                }
                 return Err(self.violation("C20", "C20.no_panic", n, detail, sig));
             }
         };
@@ -748,6 +759,7 @@ impl World {
         node.transferee_seen = None;
         node.want_cap.clear();
         node.pending_notify = None;
+        node.snap_outstanding.clear();
         if node.obs.commit < node.max_commit_ever {
             node.reloaded_lower_commit = true;
         }
